@@ -8,7 +8,8 @@ import json, os, re, shutil, subprocess, sys, tempfile, time, hashlib, concurren
 VERIF = os.path.dirname(os.path.dirname(os.path.abspath(__file__)))
 REPO = os.environ.get("VERIF_REPO", "/repo")
 SPECS = os.path.join(VERIF, "specs")
-HARNESS = os.path.join(VERIF, "harness")
+HARNESS = os.environ.get("VERIF_HARNESS", os.path.join(VERIF, "harness"))
+OUT = os.environ.get("VERIF_OUT", VERIF)   # where evidence/ and replays/ are written
 JAR = "/opt/veriftools/tla/tla2tools.jar:/opt/veriftools/tla/CommunityModules-deps.jar"
 NCPU = os.cpu_count() or 4
 
@@ -179,7 +180,7 @@ class Check:
             if msg not in self.known_hits:
                 self.known_hits.append(msg)
             return
-        rd = os.path.join(VERIF, "replays", "%s-%s-%d" % (self.pid, hashlib.sha1(key.encode()).hexdigest()[:10], len(self.violations)))
+        rd = os.path.join(OUT, "replays", "%s-%s-%d" % (self.pid, hashlib.sha1(key.encode()).hexdigest()[:10], len(self.violations)))
         os.makedirs(rd, exist_ok=True)
         with open(os.path.join(rd, "what.txt"), "w") as f:
             f.write("property=%s key=%s\n%s\n" % (self.pid, key, what))
@@ -197,8 +198,8 @@ class Check:
               "coverage": self.cov, "assumptions": self.assumptions, "wall_s": wall,
               "violations": len(self.violations), "known_findings_hit": self.known_hits,
               "inconclusive": self.inconclusive[:20]}
-        os.makedirs(os.path.join(VERIF, "evidence"), exist_ok=True)
-        with open(os.path.join(VERIF, "evidence", self.pid + ".json"), "w") as f:
+        os.makedirs(os.path.join(OUT, "evidence"), exist_ok=True)
+        with open(os.path.join(OUT, "evidence", self.pid + ".json"), "w") as f:
             json.dump(ev, f, indent=1, sort_keys=True)
         shutil.rmtree(self.scratch, ignore_errors=True)
         for m in self.known_hits:
